@@ -28,7 +28,7 @@ pub fn families() -> Vec<Family> {
             "pull_to_vec_async / pull_value_async / pull_typed_slice_async / pull_complex_slice_async / pull_consume_async over AsyncClient (blocking Server producer) and WebSocketClient (WebSocketServer producer) reproduce the producer's value exactly",
             c09_async_pull,
         )
-        .runs(2_000, 100_000)
+        .runs(10_000, 600_000)
         .steps(3_000_000)
         .tokio(),
         Family::new(
@@ -37,7 +37,7 @@ pub fn families() -> Vec<Family> {
             "pull_to_file_async / _verified_async / _trailer_verified_async with producer failure, rejecting verifier, over-long trailer, rename failure, connection loss mid-transfer and the pull future abandoned at its k-th poll; destination sampled at every commit-path probe and every simulated millisecond",
             c10_async_file,
         )
-        .runs(3_000, 150_000)
+        .runs(15_000, 900_000)
         .steps(3_000_000)
         .tokio(),
     ]
@@ -87,15 +87,25 @@ async fn pull_check<C: AsyncSvsClient>(case: &Case, client: &C, payload: &Payloa
             );
         }
         (_, 2) => {
-            let r = repe::value_stream::pull_consume_async(client, "res", |mut rd: Box<dyn Read>| {
+            // a decoder that is sometimes slower than the pull loop, so the bounded channel
+            // between them fills
+            let nap_us = pick(&[0u64, 0, 200, 3_000, 30_000]);
+            let nap_after = range(1, 4) as usize;
+            let r = repe::value_stream::pull_consume_async(client, "res", move |mut rd: Box<dyn Read>| {
                 let mut v = Vec::new();
                 let mut buf = [0u8; 37];
+                let mut reads = 0usize;
                 loop {
                     let n = rd.read(&mut buf)?;
                     if n == 0 {
                         break;
                     }
                     v.extend_from_slice(&buf[..n]);
+                    reads += 1;
+                    if nap_us > 0 && reads % nap_after == 0 {
+                        simkernel::count("probe.slow_decoder_nap");
+                        simkernel::thread::sleep(Duration::from_micros(nap_us));
+                    }
                 }
                 Ok(v)
             })
